@@ -78,6 +78,27 @@ def unit_sphere(tier):
     return ck
 
 
+def unit_capsule(tier, part=0, nparts=1):
+    """ray_capsule in the capsule's own frame (pos = 0, mat = identity; the frame change ray_map is exercised with a symbolic rotation in unit_plane): a hit lies on the capsule surface
+    (cylinder side between the caps, or the outer half of a cap sphere), nothing on the surface is nearer along the ray, and -1 means the ray misses the surface"""
+    ck = Checker('ray_capsule_p%d' % part, tier, timeout_s=150, semantics='real')
+    ident = [1.0, 0.0, 0.0, 0.0, 1.0, 0.0, 0.0, 0.0, 1.0]
+    L = Leaf(ck, mod(), so(), 'ray_capsule', [('arr', 'pos', 3, [0.0, 0.0, 0.0]), ('arr', 'mat', 9, ident), ('arr', 'size', 3), ('arr', 'pnt', 3), ('arr', 'vec', 3), ('ptr0', 'normal')], restype='f64',
+             pre=lambda v: [v['size'][0] > 0, v['size'][1] > 0], unknown_is_feasible=True, feasibility_timeout_s=4)
+    size, pnt, vec = L.v['size'], L.v['pnt'], L.v['vec']; r, h = size[0], size[1]
+    y = z3.Real('y')
+    def on_surface(t):
+        p = [pnt[k] + t * vec[k] for k in range(3)]; rr = p[0] * p[0] + p[1] * p[1]
+        return z3.Or(z3.And(p[2] <= h, p[2] >= -h, rr == r * r), z3.And(p[2] >= h, rr + (p[2] - h) * (p[2] - h) == r * r), z3.And(p[2] <= -h, rr + (p[2] + h) * (p[2] + h) == r * r))
+    vv = sum(vec[k] * vec[k] for k in range(3))
+    for k_, (pc, out, ret, rp) in enumerate(L.paths()):
+        if k_ % nparts != part: continue
+        ck.prove('ray_capsule: a returned distance puts the ray point on the capsule surface', pc, z3.Implies(ret >= 0, on_surface(ret)), site='ray_capsule:on-surface', decode=L.decode(), replay=rp)
+        ck.prove('ray_capsule: no point of the surface is nearer along the ray', pc + [ret >= 0, y >= 0, y < ret], z3.Not(on_surface(y)), site='ray_capsule:nearest', decode=L.decode(), replay=rp)
+        ck.prove('ray_capsule: -1 only if the (non-degenerate) ray misses the surface', pc + [ret < 0, vv >= MINVAL, y >= 0], z3.Not(on_surface(y)), site='ray_capsule:miss', decode=L.decode(), replay=rp)
+    return ck
+
+
 def unit_plane(tier):
     ck = Checker('ray_plane', tier, timeout_s=200, semantics='real')
     L = Leaf(ck, mod(), so(), 'ray_plane', [('arr', 'pos', 3), ('arr', 'mat', 9), ('arr', 'size', 3), ('arr', 'pnt', 3), ('arr', 'vec', 3), ('ptr0', 'normal')], restype='f64',
